@@ -243,11 +243,16 @@ def _is_sos(t):
 def arccos(c, decide):
     """np.arccos axiomatised: strictly decreasing on [-1,1], arccos(1)=0, arccos(-1)=pi, in [0,pi];
     outside [-1,1] numpy raises (np.seterr(all='raise'))."""
+    enclosure = None
     if not is_sym(c):
         if abs(_num(c)) > 1:
             raise DivByZero()
         if _num(c) == 1:
             return 0
+        # concrete argument: besides the axioms, a numeric enclosure of the value (libm acos, +-1e-9) so that comparisons with
+        # concrete limits are decided
+        a = math.acos(float(_num(c)))
+        enclosure = (Fraction(repr(a - 1e-9)) if a > 1e-9 else Fraction(0), Fraction(repr(a + 1e-9)))
         c = to_real(c)
     zc = to_real(c)
     if decide(z3.Or(zc < -1, zc > 1)):
@@ -256,6 +261,8 @@ def arccos(c, decide):
     emit_fact(z3.And(r >= 0, r <= PI, PI > 3, PI < 4,
                      z3.Implies(zc == 1, r == 0), z3.Implies(zc == -1, r == PI),
                      z3.Implies(zc > -1, r < PI), z3.Implies(zc < 1, r > 0)), "A-arccos")
+    if enclosure is not None:
+        emit_fact(z3.And(r >= z3.RealVal(enclosure[0]), r <= z3.RealVal(enclosure[1])), "A-arccos-enclosure(libm +-1e-9)")
     for (oc, orr) in _seen_arccos:
         emit_fact(z3.And(z3.Implies(oc < zc, orr > r), z3.Implies(oc > zc, orr < r),
                          z3.Implies(oc == zc, orr == r)), "A-arccos-mono")
